@@ -258,6 +258,7 @@ def triage(prop, tier, base_seed, results, log):
                 by_sig[k] = (r, v)
     new = 0
     nknown = 0
+    used_paths = {}
     os.makedirs(REPLAY_DIR, exist_ok=True)
     for k, (r, v) in sorted(by_sig.items(),
                             key=lambda kv: kv[1][0]['index']):
@@ -273,8 +274,11 @@ def triage(prop, tier, base_seed, results, log):
                 raise HarnessError(
                     'violation %s of plan %d did not reproduce in-process'
                     % (k, r['index']))
-        path = os.path.join(REPLAY_DIR, '%s-%d-%d.json' % (
-            pid, base_seed, r['index']))
+        nfile = used_paths.get(r['index'], 0)
+        used_paths[r['index']] = nfile + 1
+        path = os.path.join(REPLAY_DIR, '%s-%d-%d%s.json' % (
+            pid, base_seed, r['index'],
+            '' if nfile == 0 else '-%d' % nfile))
         with open(path, 'w') as f:
             json.dump({'property': pid, 'base_seed': base_seed,
                        'index': r['index'], 'seed': r['seed'],
